@@ -366,6 +366,8 @@ class LibraryNode(AstNode, NamespaceMixin):
         # From arguments
         self.parent = None
         self.cxx_header = cxx_header.split()
+        if not isinstance(language, str):
+            raise RuntimeError("language must be 'c' or 'c++'")
         self.language = language.lower()
         if self.language not in ["c", "c++"]:
             raise RuntimeError("language must be 'c' or 'c++'")
@@ -1289,7 +1291,7 @@ class ClassNode(AstNode, NamespaceMixin):
             ]
         )
 
-    def add_namespace(self, **kwargs):
+    def add_namespace(self, name=None, **kwargs):
         """Replace method inherited from NamespaceMixin."""
         raise RuntimeError("Cannot add a namespace to a class")
 
@@ -2161,7 +2163,16 @@ def add_declarations(parent, node):
     if not isinstance(node["declarations"], list):
         raise RuntimeError("declarations must be a list")
 
+    if not hasattr(parent, "add_declaration"):
+        raise RuntimeError(
+            "declarations are not allowed below '{}'".format(
+                getattr(parent, "decl", None) or parent.name))
+
     for subnode in node["declarations"]:
+        if not isinstance(subnode, dict):
+            raise RuntimeError(
+                "declarations must be a list of dictionaries, found '{}'"
+                .format(subnode))
         if "block" in subnode:
             dct = copy.copy(subnode)
             clean_dictionary(dct)
@@ -2173,6 +2184,9 @@ def add_declarations(parent, node):
             clean_dictionary(dct)
             decl = dct["decl"]
             del dct["decl"]
+            if not isinstance(decl, str):
+                raise RuntimeError(
+                    "decl must be a string, found '{}'".format(decl))
 
             if "fstatements" in dct:
                 dct["fstatements"] = listify(dct["fstatements"], [
